@@ -415,6 +415,52 @@ func ruleI3(c *Ctx) {
 					okDom = true
 				}
 			}
+			if !okDom {
+				// the divisor is a Go integer converted to an Int (MakeInt64(n)): a dominating n != 0 test on
+				// the Go value (or on the value it was converted from) discharges the precondition
+				chain := []ssa.Value{divisor}
+				for i := 0; i < len(chain) && i < 8; i++ {
+					switch x := chain[i].(type) {
+					case *ssa.Call:
+						if cal := x.Call.StaticCallee(); cal != nil && len(x.Call.Args) == 1 {
+							switch cal.Name() {
+							case "MakeInt", "MakeInt64", "MakeUint", "MakeUint64", "Nanoseconds":
+								chain = append(chain, x.Call.Args[0])
+							}
+						}
+					case *ssa.Convert:
+						chain = append(chain, x.X)
+					case *ssa.ChangeType:
+						chain = append(chain, x.X)
+					}
+				}
+				for _, pc := range pathConds(call.Block()) {
+					cv, neg := stripNot(pc.If.Cond)
+					taken := pc.Branch != neg
+					b, ok := cv.(*ssa.BinOp)
+					if !ok || (b.Op != token.EQL && b.Op != token.NEQ) {
+						continue
+					}
+					var other ssa.Value
+					if k, isK := constInt(b.Y); isK && k == 0 {
+						other = b.X
+					} else if k, isK := constInt(b.X); isK && k == 0 {
+						other = b.Y
+					}
+					if other == nil {
+						continue
+					}
+					for _, cv := range chain[1:] {
+						if cv == other && ((b.Op == token.EQL && !taken) || (b.Op == token.NEQ && taken)) {
+							okDom = true
+						}
+					}
+				}
+				if okDom {
+					c.ok(key, pos, "the divisor is a converted Go integer that a dominating test shows to be non-zero")
+					return
+				}
+			}
 			if okDom {
 				c.ok(key, pos, "dominated by divisor.Sign() != 0")
 			} else {
